@@ -1,7 +1,7 @@
 (* C12 -- Task selection yields exactly the requested closure.
    Statements only; every proof is `exact <lemma of Proofs/SelectP.v>` or a closed computation.
    Model: Model/Select.v (TaskControl.__init__, _process_filter, _filter_tasks, process, the
-   default_tasks fallback of cmd_base and the --single handling of cmd_run, as of /repo HEAD).
+   default_tasks fallback of cmd_base and the --single handling of cmd_run, as of /repo HEAD 01f48fb).
    String functions are Section variables, so every theorem holds for whatever '*' in s, fnmatch,
    split, re.match, str.format and startswith compute.
    That the tasks a run processes are the dependency closure of the selected list is C02 (dispatcher);
@@ -30,33 +30,57 @@ Notation select_core := (select_core has_star matches basename_of re_match regex
 Notation cmd_run_select := (cmd_run_select has_star matches basename_of re_match regex_name is_regex_name is_opt).
 Notation resolves_all := (resolves_all basename_of re_match regex_name is_regex_name).
 Notation unresolvable := (unresolvable basename_of re_match is_regex_name).
+Notation delayed_matched := (delayed_matched re_match is_regex_name).
+Notation filter_list_legacy := (filter_list_legacy basename_of re_match regex_name is_regex_name).
 
-(* _filter_tasks, any table (delayed creators included): the loop succeeds iff every element is
-   accepted in one of the four ways of [resolves] (task name; target -> its producer; sub-task of a
-   delayed creator -> placeholder task; target matched by delayed creators -> one placeholder each),
-   returning exactly the concatenation of what the elements stand for, in order; it fails with
-   InvalidCommand(not_found=f) iff f is the first element that is none of these. *)
-Theorem C12_filter_exact : forall auto tg fl tb,
-  (forall tb' sel, filter_list auto tg tb fl = inr (tb', sel) <-> resolves_all auto tg tb fl tb' sel) /\
-  (forall f, filter_list auto tg tb fl = inl f <->
-     exists pre post tb1 s1, fl = pre ++ f :: post /\ resolves_all auto tg tb pre tb1 s1 /\ unresolvable auto tg tb1 f).
-Proof. intros auto tg fl tb. split; [apply filter_list_ok | apply filter_list_err]. Qed.
+(* _filter_tasks, any table (delayed creators included), in the state (ph, tb) = (subtask_placeholders,
+   tasks): the loop succeeds iff every element is accepted in one of the four ways of [resolves] (task
+   name; target -> its producer; sub-task of a delayed creator -> placeholder task, remembered in ph;
+   target matched by delayed creators -- the tasks with a loader that are neither `_regex_target..` nor in
+   ph -> one placeholder each), returning exactly the concatenation of what the elements stand for, in
+   order; it fails with InvalidCommand(not_found=f) iff f is the first element that is none of these. *)
+Theorem C12_filter_exact : forall auto tg fl ph tb,
+  (forall ph' tb' sel, filter_list auto tg ph tb fl = inr (ph', tb', sel) <-> resolves_all auto tg ph tb fl ph' tb' sel) /\
+  (forall f, filter_list auto tg ph tb fl = inl f <->
+     exists pre post ph1 tb1 s1, fl = pre ++ f :: post /\ resolves_all auto tg ph tb pre ph1 tb1 s1 /\
+                                 unresolvable auto tg ph1 tb1 f).
+Proof. intros auto tg fl ph tb. split; [apply filter_list_ok | apply filter_list_err]. Qed.
+
+(* repair 01f48fb: a sub-task placeholder is never taken for a task-creator.  Run the loop from the start
+   (no placeholder yet) over any prefix [pre] of the command line; whatever the next element f is, every task
+   k the target regexes match it with -- the k for which a task `_regex_target_<f>:<k>` is created and
+   `loader.basename = k` is executed -- is a task of the loaded task list tb0, is none of the sub-task
+   placeholders; and every sub-task placeholder is a name of the prefix that was no task of tb0 and is in the
+   table now.  Hypothesis on the string oracles: a name built by the '_regex_target_{}:{}' format starts with
+   '_regex_target'. *)
+Theorem C12_regex_never_for_subtask_placeholder : forall auto tg tb0 pre ph1 tb1 s1 f k l,
+  (forall x k, is_regex_name (regex_name x k) = true) ->
+  resolves_all auto tg [] tb0 pre ph1 tb1 s1 ->
+  In (k, l) (delayed_matched auto ph1 tb1 f) ->
+  In k (map fst tb0) /\ ~ In k ph1 /\ is_regex_name k = false /\
+  (forall x, In x ph1 -> In x pre /\ has tb0 x = false /\ has tb1 x = true).
+Proof. exact (regex_creators_original basename_of re_match regex_name is_regex_name). Qed.
+
+(* the loop before the repair computed the same whenever no sub-task placeholder is made (ph stays empty) *)
+Theorem C12_subtask_placeholder_legacy_same : forall auto tg fl tb tb' sel,
+  resolves_all auto tg [] tb fl [] tb' sel -> filter_list_legacy auto tg tb fl = inr (tb', sel).
+Proof. exact (filter_list_legacy_same basename_of re_match regex_name is_regex_name). Qed.
 
 (* the same for a table without delayed creators, spelled out: one task per element -- the task of that
    name, else the producer of that target -- nothing added to the table, nothing else returned; and the
    error names the first element that is neither a task nor a target *)
-Theorem C12_filter_exact_static : forall auto tg tb fl,
+Theorem C12_filter_exact_static : forall auto tg ph tb fl,
   no_loader tb ->
-  (forall tb' sel, filter_list auto tg tb fl = inr (tb', sel) <->
-     tb' = tb /\ Forall2 (fun f n => (has tb f = true /\ n = f) \/ (has tb f = false /\ tg_get tg f = Some n)) fl sel) /\
-  (forall f, filter_list auto tg tb fl = inl f <->
+  (forall ph' tb' sel, filter_list auto tg ph tb fl = inr (ph', tb', sel) <->
+     ph' = ph /\ tb' = tb /\ Forall2 (fun f n => (has tb f = true /\ n = f) \/ (has tb f = false /\ tg_get tg f = Some n)) fl sel) /\
+  (forall f, filter_list auto tg ph tb fl = inl f <->
      exists pre post, fl = pre ++ f :: post /\
        Forall (fun x => has tb x = true \/ tg_get tg x <> None) pre /\
        ~ (has tb f = true \/ tg_get tg f <> None)).
 Proof.
-  intros auto tg tb fl H. split; intros.
-  - exact (filter_list_static_ok basename_of re_match regex_name is_regex_name auto tg tb fl tb' sel H).
-  - exact (filter_list_static_err basename_of re_match regex_name is_regex_name auto tg tb fl f H).
+  intros auto tg ph tb fl H. split; intros.
+  - exact (filter_list_static_ok basename_of re_match regex_name is_regex_name auto tg ph tb fl ph' tb' sel H).
+  - exact (filter_list_static_err basename_of re_match regex_name is_regex_name auto tg ph tb fl f H).
 Qed.
 
 (* patterns: an element with '*' stands for exactly the defined tasks it matches (in definition order:
@@ -117,9 +141,9 @@ Theorem C12_unknown_rejected : forall auto single tb c sel,
   (select_core auto single (Some sel) tb = RParseErr <->
    process_filter (c_order c) (c_tasks c) MName pstate0 sel = None) /\
   (forall f, select_core auto single (Some sel) tb = RNotFound f <->
-   exists fl st pre post tb1 s1,
+   exists fl st pre post ph1 tb1 s1,
      process_filter (c_order c) (c_tasks c) MName pstate0 sel = Some (fl, st) /\ fl = pre ++ f :: post /\
-     resolves_all auto (c_targets c) (c_tasks c) pre tb1 s1 /\ unresolvable auto (c_targets c) tb1 f).
+     resolves_all auto (c_targets c) [] (c_tasks c) pre ph1 tb1 s1 /\ unresolvable auto (c_targets c) ph1 tb1 f).
 Proof. exact (select_failures has_star matches basename_of re_match regex_name is_regex_name is_opt). Qed.
 
 (* positional arguments win; without them DOIT_CONFIG['default_tasks'] is the selection (an empty list
@@ -155,6 +179,8 @@ Proof. exact (targets_exact has_star matches basename_of re_match regex_name is_
 
 End Statements.
 Print Assumptions C12_filter_exact.
+Print Assumptions C12_regex_never_for_subtask_placeholder.
+Print Assumptions C12_subtask_placeholder_legacy_same.
 Print Assumptions C12_filter_exact_static.
 Print Assumptions C12_glob.
 Print Assumptions C12_after_glob.
@@ -284,3 +310,48 @@ Theorem C12_norepeat_legacy : forall has_star matches order tb sel inited,
   fst (process_filter_legacy has_star matches order tb inited sel) = Select.expand_sel has_star matches order sel.
 Proof. intros. apply process_filter_legacy_norepeat; auto. Qed.
 Print Assumptions C12_norepeat_legacy.
+
+(* ---- the code before the repair 01f48fb (_filter_tasks did not remember the placeholder tasks it makes for
+   `basename:sub` names of a delayed creator): `doit run --auto-delayed-regex d:1 other.txt` -- the regex loop
+   matched other.txt with the creator d AND with the placeholder d:1 (same loader object), created
+   `_regex_target_other.txt:d:1` and left loader.basename = 'd:1' (tasks d:1:1.. created, or a KeyError).
+   strings: 10 'd' (create_after creator, no target_regex)  11 'd:1'  12 'other.txt'
+            100+k '_regex_target_other.txt:<k>' ---- *)
+Definition ex_base3 (s : name) : name := match s with 11 => 10 | _ => s end.
+Definition ex_rn3 (f k : name) : name := 100 + k.
+Definition ex_isrn3 (s : name) : bool := 100 <=? s.
+Definition ex_tb3 : table := [(10, Build_stask [] [] [] [] [] [] false None (Some (Build_loader None None)) false [])].
+
+Theorem C12_subtask_placeholder_legacy_refuted :
+  exists basename_of re_match regex_name is_regex_name auto tg tb f1 f2 tb',
+    (forall x k, is_regex_name (regex_name x k) = true) /\
+    has tb f1 = false /\
+    Select.filter_list_legacy basename_of re_match regex_name is_regex_name auto tg tb [f1; f2] =
+      inr (tb', [f1; regex_name f2 (basename_of f1); regex_name f2 f1]) /\
+    has tb' (regex_name f2 f1) = true.
+Proof.
+  exists ex_base3, ex_false2, ex_rn3, ex_isrn3, true, [], ex_tb3, 11, 12.
+  eexists. split; [|split; [|split]].
+  - intros x k. apply N.leb_le. apply N.le_add_r.
+  - reflexivity.
+  - vm_compute. reflexivity.
+  - vm_compute. reflexivity.
+Qed.
+Print Assumptions C12_subtask_placeholder_legacy_refuted.
+
+(* the same input through the repaired loop: only the creator d is matched; and the hypotheses of
+   C12_regex_never_for_subtask_placeholder are satisfiable with a non-empty set of placeholders and a
+   non-empty match (prefix [d:1], next element other.txt) *)
+Example C12_example_subtask_placeholder :
+  (exists tb', Select.filter_list ex_base3 ex_false2 ex_rn3 ex_isrn3 true [] [] ex_tb3 [11; 12] = inr ([11], tb', [11; 110]) /\
+               has tb' 111 = false) /\
+  (forall x k, ex_isrn3 (ex_rn3 x k) = true) /\
+  exists tb1 l, SelectP.resolves_all ex_base3 ex_false2 ex_rn3 ex_isrn3 true [] [] ex_tb3 [11] [11] tb1 [11] /\
+                Select.delayed_matched ex_false2 ex_isrn3 true [11] tb1 12 = [(10, l)].
+Proof.
+  split; [eexists; split; vm_compute; reflexivity|]. split.
+  - intros x k. apply N.leb_le. apply N.le_add_r.
+  - eexists. eexists. split.
+    + apply filter_list_ok. vm_compute. reflexivity.
+    + vm_compute. reflexivity.
+Qed.
